@@ -53,6 +53,7 @@ class XNode:
         self.stmt_ops = stmt_ops        # operators applied inside the current statement
         self.final = False              # structure depends on the data (pivot): nothing can follow
         self.facts = {}                 # what the classifier needs to know about the script
+        self.stmt_roles = []            # components given the role identifier / attribute by a calc of the current statement
 
     def comps(self):
         return self.ids + self.meas + self.atts
@@ -93,6 +94,7 @@ class XGen(G.Gen):
         n = XNode(vtl, sx, ids, meas, atts, node.ops + (op,), node.stmt_ops + 1)
         n.facts = dict(node.facts)
         n.facts.update(facts)
+        n.stmt_roles = list(node.stmt_roles)
         return n
 
     # ------------------------------------------------------------------ the new operators
@@ -115,11 +117,12 @@ class XGen(G.Gen):
         n = self.mk(node, '%s[unpivot %s, %s]' % (node.vtl, idn, mn), sx, node.ids + [(idn, 'String')], [(mn, t)], [], 'unpivot',
                        operand_measures=bool(types),
                        attributes_before_unpivot=sorted(set(node.facts.get('attributes_before_unpivot', [])) | set(node.att_names())),
+                       nested_role_calc_before_unpivot=sorted(set(node.facts.get('nested_role_calc_before_unpivot', [])) | set(node.stmt_roles)),
                        unpivot_types=types,
                        unpivot_integer_before_number=bool(node.facts.get('unpivot_integer_before_number')) or
                        ('Integer' in types and 'Number' in types and types.index('Integer') < types.index('Number')))
         # three recorded engine defects end the script: what follows them would only repeat them under other keys
-        if n.facts['unpivot_integer_before_number'] or not types or (node.atts and node.stmt_ops >= 1):
+        if n.facts['unpivot_integer_before_number'] or not types or node.stmt_roles:
             n.final = True
         return n
 
@@ -175,7 +178,9 @@ class XGen(G.Gen):
         ids = node.ids + [(nm, t) for role, nm, t, e in items if role == 'identifier']
         meas = [m for m in node.meas if m[0] not in names] + [(nm, t) for role, nm, t, e in items if role == 'measure']
         atts = [a for a in node.atts if a[0] not in names] + [(nm, t) for role, nm, t, e in items if role == 'attribute']
-        return self.mk(node, '%s[calc %s]' % (node.vtl, vt), '(calcrole (%s) (%s) %s)' % (idit, oth, node.sx), ids, meas, atts, 'calcrole')
+        n = self.mk(node, '%s[calc %s]' % (node.vtl, vt), '(calcrole (%s) (%s) %s)' % (idit, oth, node.sx), ids, meas, atts, 'calcrole')
+        n.stmt_roles = node.stmt_roles + [nm for role, nm, t, e in items if role != 'measure']
+        return n
 
     def aggrc(self, node, over_attribute=False):
         r = self.r
@@ -203,9 +208,14 @@ class XGen(G.Gen):
             if out in names or out in [n for n, _ in gids]:
                 continue
             role = 'attribute ' if r.random() < 0.2 else ('measure ' if r.random() < 0.2 else '')
-            if src and r.random() < 0.85:
+            # `count()` only over a materialised operand: inside a nested expression the engine's count() sees other
+            # measures than the three-address form does (the nested-expression family; count itself is C03's subject)
+            may_count = node.stmt_ops == 0
+            if not src and not may_count:
+                continue
+            if src and (r.random() < 0.85 or not may_count):
                 m, t = r.choice(src)
-                op = r.choice(AGG_NUM if t in NUM else AGG_ANY)
+                op = r.choice([o for o in (AGG_NUM if t in NUM else AGG_ANY) if o != 'count' or may_count])
                 if op == 'count':
                     items.append((out, role, 'count()', '(item %s count any)' % nsx(out), 'Integer'))
                 else:
@@ -251,10 +261,12 @@ class XGen(G.Gen):
             return None
         k = r.choice([1, 1, 2]) if len(non) > 2 else 1
         pick = r.sample(non, k)
-        if node.atts and r.random() < 0.6 and not any(p in node.atts for p in pick):
+        if node.atts and r.random() < 0.4 and not any(p in node.atts for p in pick):
             pick[0] = r.choice(node.atts)
         pn = [n for n, _ in pick]
-        on_att = any(p in node.atts for p in pick)
+        # `_att`: the operand carries attributes (listed in the clause or not: keep must leave the unlisted ones behind,
+        # drop must retain them)
+        on_att = bool(node.atts)
         if r.random() < 0.5:
             return self.mk(node, '%s[keep %s]' % (node.vtl, ', '.join(pn)), '(keep %s (%s))' % (node.sx, ' '.join(nsx(n) for n in pn)),
                            node.ids, [m for m in node.meas if m[0] in pn], [a for a in node.atts if a[0] in pn], 'keep_att' if on_att else 'keep')
@@ -405,7 +417,21 @@ def fixed_cases(rng):
         sx = '(unpivot ("At_1") "Id_3" "Me_3" (calcrole () (("At_1" (bin add (col "Me_1") (const (i 1))))) (ds DS_1)))'
         return XNode('DS_1[calc attribute At_1 := Me_1 + 1][unpivot Id_3, Me_3]', sx, n.ids + [('Id_3', S)], [('Me_3', I)], [], ('calcrole', 'unpivot'), 2), True
     add('unpivot-after-calc-attribute', env, att_flat, facts={'operand_measures': True, 'attributes_before_unpivot': ['At_1']})
-    add('unpivot-after-calc-attribute', env, att_nested, facts={'operand_measures': True, 'attributes_before_unpivot': ['At_1']})
+    add('unpivot-after-calc-attribute', env, att_nested, facts={'operand_measures': True, 'attributes_before_unpivot': ['At_1'], 'nested_role_calc_before_unpivot': ['At_1']})
+    # keep / drop of measures while the operand carries an attribute the clause does not list
+    def kd(clause, keepm, keepa):
+        def build(n, s):
+            s.append('T_1 := DS_1[calc attribute At_1 := Me_1 + 1];')
+            inner = '(calcrole () (("At_1" (bin add (col "Me_1") (const (i 1))))) (ds DS_1))'
+            names = clause.split(' ', 1)[1].split(', ')
+            sx = '(%s %s (%s))' % (clause.split(' ')[0], inner, ' '.join(nsx(x) for x in names))
+            return XNode('T_1[%s]' % clause, sx, n.ids, [m for m in n.meas if m[0] in keepm], [('At_1', I)] if keepa else [],
+                         ('calcrole', clause.split(' ')[0] + '_att'), 1), False
+        return build
+    add('keep-measure-attribute-unlisted', env, kd('keep Me_1', ['Me_1'], False))
+    add('keep-attribute-only', env, kd('keep At_1', [], True))
+    add('drop-measure-attribute-unlisted', env, kd('drop Me_2', ['Me_1'], True))
+    add('drop-attribute', env, kd('drop At_1', ['Me_1', 'Me_2'], False))
     # calc identifier: a null value must be refused; a non-null one extends the key
     add('calc-identifier-null', env,
         lambda n, s: (XNode('DS_1[calc identifier Id_3 := Me_1]', '(calcrole (("Id_3" (col "Me_1"))) () (ds DS_1))', n.ids + [('Id_3', I)], n.meas, [], ('calcrole',), 1), False),
